@@ -7,9 +7,10 @@ mcCallsC == {}
 mcCallsS == {}
 mcAdvS == {}
 mcAdvC ==
-  {<<AH(sid, h, es)>> : sid \in {1, 3}, h \in {"resp200_cl3", "resp200_cl0", "resp200", "info100_cl3", "resp_cl_bad", "resp_cl_neg", "trl"}, es \in BOOLEAN}
+  {<<AH(sid, h, es)>> : sid \in {1, 3}, h \in {"resp200_cl3", "resp200_cl0", "resp200", "info100_cl3", "resp_cl_bad", "resp_cl_neg", "trl", "resp204_cl3", "resp304_cl3", "resp204"}, es \in BOOLEAN}
   \cup {<<AD(sid, n, es, pad)>> : sid \in {1, 3}, n \in {0, 2, 3}, es \in BOOLEAN, pad \in {-1, 1}}
 mcSetup == Handshake("c", <<>>) \o <<CCall("c", CHdr(1, "req_get", TRUE)), CCall("c", CHdr(3, "req_head", TRUE))>>
+\* (MC_LenC2: a HEAD request followed by request trailers)
 mcQSids == <<1, 3>>
 mcCfgC == DefaultCfg
 mcCfgS == DefaultCfg
